@@ -387,6 +387,8 @@ def gen_kind_harnesses(prefix, kind, info, syntax):
             sa = tmpl.format(m="m", p='"a_"')
             sb = tmpl.format(m="m2", p='"b_"')
             L.append(f'func H_C09_{msg}_{fname}() {{\n\tm := &{msg}{{}}\n\t{sa}\n\t_ = m.Size() // the size cache now holds Size(A)\n\tm2 := &{msg}{{}}\n\t{sb}\n\tpbAssign_{msg}(m, m2) // mutate through the fields: contents are B, nothing invalidates the cache\n\tpbC09(m, exp_{msg}(pbBuf(), m2))\n}}')
+    allt = [t for n, t in fields if n == "All"][0]
+    L.append(f'func H_C09_Own_{msg}() {{\n\tm := &{msg}{{}}\n\t' + allt.format(m="m", p='""') + '\n\tpbC09Own(m)\n}')
     L.append(f'// pbAssign_{msg} gives dst the contents of src field by field (what a program mutating the message does)')
     L.append(f'func pbAssign_{msg}(dst, src *{msg}) {{')
     for name, num in info["fields"]:
@@ -423,6 +425,7 @@ def gen_unmarshal_harnesses(prefix, kind, info, syntax):
             L.append(f'func H_C06_{msg}_{fname}() {{ c06_{msg}_{fname}(false) }}')
             L.append(f'func H_C10_{msg}_{fname}() {{ c06_{msg}_{fname}(true) }}')
             L.append(f'func c06_{msg}_{fname}(aliasCheck bool) {{')
+            L.append('\tif aliasCheck {\n\t\tpbC10Prelude()\n\t}')
         else:
             L.append(f'func H_C06_{msg}_{fname}() {{')
         L.append(f'\tm := &{msg}{{}}\n\t{pre} // the destination is pre-populated: the result must not depend on it')
@@ -451,6 +454,7 @@ def gen_unmarshal_harnesses(prefix, kind, info, syntax):
             L.append(f'func H_C06_{msg}_{rf}() {{ c06_{msg}_{rf}(false) }}')
             L.append(f'func H_C10_{msg}_{rf}() {{ c06_{msg}_{rf}(true) }}')
             L.append(f'func c06_{msg}_{rf}(aliasCheck bool) {{')
+            L.append('\tif aliasCheck {\n\t\tpbC10Prelude()\n\t}')
         else:
             L.append(f'func H_C06_{msg}_{rf}() {{')
         L.append(f'\tm := &{msg}{{}}\n\tmk_{msg}_{rf}(m, "d_", 1)')
